@@ -132,6 +132,22 @@ def run(ctx, config='rel-all'):
                 ctx.ok('R4', '%s releases %s' % (arena.short(body['id']), what), show(arg)[:80])
             else:
                 ctx.violation('R4', arena.short(body['id']), 'call(releaser):arg', '%s passes %s to the releaser, expected %s' % (key, show(arg)[:100], what), e.span)
+    check_no_leak(ctx, A, 'R5', 4)
+    # ---- R6 no destructors from reset/drop
+    for key in ('drop', 'reset'):
+        val = A.get(key)
+        if not val:
+            continue
+        I, res, body = val
+        bad = [e for e in res.events if e.kind in ('drop_in_place', 'drop', 'usercall')]
+        if bad:
+            for e in bad[:3]:
+                ctx.violation('R6', arena.short(body['id']), 'runs-destructor', '%s reaches a destructor / user callback (%s)' % (key, e.kind), e.span)
+        else:
+            ctx.ok('R6', '%s reaches no drop_in_place, Drop terminator or user callback' % arena.short(body['id']), '%d events inspected' % len(res.events))
+
+
+def check_no_leak(ctx, A, RULE_NAME, floor):
     # ---- R5 no leak between acquisition and publication
     n5 = 0
     for key, val in A.items():
@@ -143,7 +159,7 @@ def run(ctx, config='rel-all'):
             g = ('app', 'galloc', ge.args[0], C(ge.extra['id']))
             mine = [a for e, a in aggs if g in subterms(a)]
             if not mine:
-                ctx.violation('R5', arena.short(arena.innermost(ge)), 'acquire:no-footer', 'a block is obtained from the global allocator but no footer is written into it', ge.span)
+                ctx.violation(RULE_NAME, arena.short(arena.innermost(ge)), 'acquire:no-footer', 'a block is obtained from the global allocator but no footer is written into it', ge.span)
                 continue
             Aaddr = mine[0]
             # every inlined frame between the acquirer and the entry, plus the entry itself
@@ -166,22 +182,10 @@ def run(ctx, config='rel-all'):
                         continue
                     n5 += 1
                     if Aaddr in subterms(t) or published or t == ('never',):
-                        ctx.ok('R5', '%s via %s: acquired chunk is carried by the return value or published' % (name, key), 'footer address occurs in the success alternative')
+                        ctx.ok(RULE_NAME, '%s via %s: acquired chunk is carried by the return value or published' % (name, key), 'footer address occurs in the success alternative')
                     else:
-                        ctx.violation('R5', name, 'return:drops-acquired-chunk', 'a path on which the global allocator returned a block returns %s without the new footer and without publishing it: the chunk is leaked [via %s]' % (show(t)[:80], key), ge.span)
-    ctx.floor('R5', n5, 4, 'return alternatives on acquisition-success paths')
-    # ---- R6 no destructors from reset/drop
-    for key in ('drop', 'reset'):
-        val = A.get(key)
-        if not val:
-            continue
-        I, res, body = val
-        bad = [e for e in res.events if e.kind in ('drop_in_place', 'drop', 'usercall')]
-        if bad:
-            for e in bad[:3]:
-                ctx.violation('R6', arena.short(body['id']), 'runs-destructor', '%s reaches a destructor / user callback (%s)' % (key, e.kind), e.span)
-        else:
-            ctx.ok('R6', '%s reaches no drop_in_place, Drop terminator or user callback' % arena.short(body['id']), '%d events inspected' % len(res.events))
+                        ctx.violation(RULE_NAME, name, 'return:drops-acquired-chunk', 'a path on which the global allocator returned a block returns %s without the new footer and without publishing it: the chunk is leaked [via %s]' % (show(t)[:80], key), ge.span)
+    ctx.floor(RULE_NAME, n5, floor, 'return alternatives on acquisition-success paths')
 
 
 def prover_static(x):
